@@ -76,6 +76,10 @@ pub fn make_plan(family: &str, nkeys: u32, rng: &mut SmallRng) -> Vec<u64> {
             "fewpos" => mkhash([0u64, 16, 32, 48][rng.random_range(0..4)], rng.random_range(0..4)),
             "onegroup" => mkhash(rng.random_range(0..16), rng.random_range(0..2)),
             "seq" => mkhash(k as u64, (k % 128) as u64),
+            // clusters that start in the last groups of the table and run over its end into the first group
+            "wrap" => mkhash(65535 - rng.random_range(0..22), rng.random_range(0..3)),
+            // overlapping short clusters: probes meet real EMPTY bytes before tombstones
+            "spread" => mkhash((k as u64 * 7) % 64, (k % 4) as u64),
             "lowbit" => mkhash(rng.random_range(0..4), [2u64, 3][rng.random_range(0..2)]),
             other => panic!("unknown plan family {}", other),
         };
